@@ -56,7 +56,8 @@ def run_one(spec, tier, seed):
                         what = f"{rp.get('kind')}: {rp.get('what', '')[:140]}"
                     except Exception:      # noqa: BLE001
                         pass
-            res['results'][cid] = dict(rc=p.returncode, violation=[l for l in lines if l.startswith('VIOLATION')][:1], what=what,
+            vl = [l for l in lines if l.startswith('VIOLATION')]
+            res['results'][cid] = dict(rc=p.returncode, violation=vl[:1], what=what, concrete=sum(1 for l in vl if 'no-failing-input-found' not in l), unlocated=sum(1 for l in vl if 'no-failing-input-found' in l),
                                        summary=lines[-1] if lines else out[-200:])
         res['caught'] = any(r['rc'] == 1 and r['violation'] for r in res['results'].values())
         return res
@@ -89,7 +90,7 @@ def main():
         verdict = 'ERROR ' + r['error'] if 'error' in r else ('caught' if r['caught'] else 'MISSED')
         ok = ('error' not in r) and ((r['expect'] == 'caught') == r['caught'])
         bad += not ok
-        by = ', '.join(f"{c}:{'V' if v['violation'] else '-'}" for c, v in r.get('results', {}).items())
+        by = ', '.join(f"{c}:{('V' + str(v.get('concrete', '')) + '+' + str(v.get('unlocated', ''))) if v['violation'] else '-'}" for c, v in r.get('results', {}).items())
         what = next((v['what'] for v in r.get('results', {}).values() if v['what']), '')
         print(f"{'ok ' if ok else 'BAD'} {r['id']:34s} {r['property']} expect={r['expect']:10s} {verdict:8s} [{by}] {what}")
     print(json.dumps(dict(total=len(out), unexpected=bad)))
